@@ -386,10 +386,12 @@ fn read_texture(f: &mut BinReader, emitter: &impl Emitter, with_images: bool) ->
 fn write_texture(f: &mut BinWriter, data: &TextureData, metadata: &TextureMetadata) -> WriteResult {
     f.write_all(b"THTX")?;
 
+    use crate::io::checked_field as field;
+    let ref emitter = f.emitter();
     f.write_u16(0)?;
-    f.write_u16(metadata.format as _)?;
-    f.write_u16(metadata.width as _)?;
-    f.write_u16(metadata.height as _)?;
+    f.write_u16(field(emitter, "image format", metadata.format as i64)?)?;
+    f.write_u16(field(emitter, "image width", metadata.width as i64)?)?;
+    f.write_u16(field(emitter, "image height", metadata.height as i64)?)?;
 
     f.write_u32(data.data.len() as _)?;
     f.write_all(&data.data)?;
@@ -511,16 +513,18 @@ impl FileFormat {
 
         } else {
             // new format
+            use crate::io::checked_field as field;
+            let ref emitter = f.emitter();
             f.write_u32(header.version as _)?;
-            f.write_u16(header.num_sprites as _)?;
-            f.write_u16(header.num_scripts as _)?;
+            f.write_u16(field(emitter, "number of sprites", header.num_sprites as i64)?)?;
+            f.write_u16(field(emitter, "number of scripts", header.num_scripts as i64)?)?;
             f.write_u16(0)?;
-            f.write_u16(header.rt_width as _)?;
-            f.write_u16(header.rt_height as _)?;
-            f.write_u16(header.rt_format as _)?;
+            f.write_u16(field(emitter, "rt_width", header.rt_width as i64)?)?;
+            f.write_u16(field(emitter, "rt_height", header.rt_height as i64)?)?;
+            f.write_u16(field(emitter, "rt_format", header.rt_format as i64)?)?;
             f.write_u32(header.name_offset as _)?;
-            f.write_u16(header.offset_x as _)?;
-            f.write_u16(header.offset_y as _)?;
+            f.write_u16(field(emitter, "offset_x", header.offset_x as i64)?)?;
+            f.write_u16(field(emitter, "offset_y", header.offset_y as i64)?)?;
             f.write_u32(header.memory_priority as _)?;
             f.write_u32(header.thtx_offset.map(NonZeroU64::get).unwrap_or(0) as _)?;
             f.write_u16(header.has_data as _)?;
